@@ -18,15 +18,30 @@ package balance
 
 // get/set: the store's typed view of its State prefix. Assumed (rests on C09's State contracts
 // and on T-SER round-tripping of Amount); everything above them is proved against these two.
-//@ assume func (*Store).get
+// get/set are VERIFIED at the raw layer (`claims`: checked on the body, not handed to callers): the amount of key k lives
+// under st.prefix ++ k of the store's State; a successful set leaves exactly the serialised amount there and writes nothing
+// else, a failed one writes nothing; get decodes what is visible under that key and answers 0 for an absent / empty record.
+// TRUSTED (per clause): the identification of the ghost ledger bal(st)[k] with that raw record (T-SER round trip, C09).
+//@ ghost func balRawKey(st *Store, k bytes) string = str(st.prefix) + str(k)
+//@ func (*Store).get
+//@   assumes st != nil && st.State != nil && wfState(st.State)
 //@   modifies nothing
+//@   trustframe
 //@   ensures amt != nil && fresh(amt)
-//@   ensures err == nil ==> big(amt) == bal(st)[str(key)]
+//@   trusts err == nil ==> big(amt) == bal(st)[str(key)]
+//@   claims err == nil && !old(exhausted(st.State.cache)) && vHas(st.State)[balRawKey(st, key)] && len(vVal(st.State)[balRawKey(st, key)]) != 0 ==> big(amt) == deser(vVal(st.State)[balRawKey(st, key)], "Amount")   // C02.raw-record
+//@   claims !old(exhausted(st.State.cache)) && vHas(st.State)[balRawKey(st, key)] && len(vVal(st.State)[balRawKey(st, key)]) == 0 ==> err == nil && big(amt) == 0   // C02.raw-record
 
-//@ assume func (*Store).set
+//@ func (*Store).set
+//@   assumes st != nil && st.State != nil && wfState(st.State)
+//@   assumes !tomb(ser(amt, "Amount"))                                                                        // A-NOTOMB a serialised record is never the deletion marker
 //@   modifies bal(st)[str(key)], vHas(st.State), vVal(st.State)
-//@   ensures err == nil ==> bal(st)[str(key)] == amt
-//@   ensures err != nil ==> bal(st)[str(key)] == old(bal(st)[str(key)])
+//@   trustframe
+//@   trusts err == nil ==> bal(st)[str(key)] == amt
+//@   trusts err != nil ==> bal(st)[str(key)] == old(bal(st)[str(key)])
+//@   claims err == nil ==> vHas(st.State)[balRawKey(st, key)] && vVal(st.State)[balRawKey(st, key)] == ser(amt, "Amount")   // C02.raw-record
+//@   claims err == nil ==> forall k string :: k != balRawKey(st, key) ==> vHas(st.State)[k] == old(vHas(st.State))[k] && vVal(st.State)[k] == old(vVal(st.State))[k]   // C02.raw-record
+//@   claims err != nil ==> vHas(st.State) == old(vHas(st.State)) && vVal(st.State) == old(vVal(st.State))   // C02.raw-record
 
 // ---------------------------------------------------------------- coin arithmetic
 
